@@ -176,6 +176,9 @@ impl Prop for C19 {
     fn assumptions(&self) -> Vec<String> {
         vec!["abstracts with ports are outside the claim (import_abstract_port is an acknowledged todo!())".into()]
     }
+    fn miri_gen(&self) -> Option<&'static str> {
+        Some("roundtrip")
+    }
     fn plan(&self, tier: Tier) -> Vec<GenSpec> {
         vec![GenSpec::random("roundtrip", tier.pick(30_000, 1_200_000)), GenSpec::random("message-faults", tier.pick(1_500, 150_000)), GenSpec::random("export-beside-readers", tier.pick(300, 6_000))]
     }
